@@ -372,6 +372,10 @@ def check(ctx):
     ctx.rule("R4", "addressed: packet content is re-queued only under handler.parms == self.sendparms")
     ctx.rule("R5", "every consumer is started in _connect (incl. the discard consumer); consume loops suspend every iteration and exit only via should_remove_handler")
     ctx.rule("R6", "wait_for_response returns True only after pop+handle and False only on the has_timedout edge")
+    ctx.rule("R9", "each connection has its own receive queue: no constructor keeps a default-argument object (`queue=AsyncPeekableQueue()` is evaluated once, at definition) nor a class-level container in an instance attribute - else datagrams received on one connection are taken, marked or discarded by another connection's consumers (C10.R8 borrowed)")
+    from .c10 import no_shared_defaults as _nsd, shared_class_state as _scs
+    _nsd(ctx.borrowed("R9", "C10"), repo, "R8")
+    _scs(ctx.borrowed("R9", "C10"), repo, "R8", only_under="/driver/")
 
     sites = queue_sites(repo)
     pops = [(fi, c, nm, r) for fi, c, nm, r in sites if nm in REMOVERS]
